@@ -505,6 +505,12 @@ func (m *NodeManager) runSynchronizeBlocks(ctx context.Context,
 		m.blockManagerLock.Lock()
 		blockSyncNeeded := m.blockSyncNeeded
 		m.blockSyncNeeded = false
+		if !blockSyncNeeded {
+			// This round is done. Clear the thread while still holding the lock, so a trigger from
+			// now on starts a new round. Otherwise a trigger arriving before this thread is marked
+			// complete would only set the restart flag, which nothing reads anymore.
+			m.blockManagerThread = nil
+		}
 		m.blockManagerLock.Unlock()
 
 		if !blockSyncNeeded {
